@@ -536,9 +536,22 @@ class Exec:
         self.deadline = time.time() + float(os.environ.get('PYVC_GEN_BUDGET_S', '90'))
 
     # ---------------- solver helpers
+    def load(self):
+        """>= 1: how oversubscribed the machine is (sampled once per executor): wall-clock budgets of the path-feasibility queries scale with
+        it, so that a query that takes 0.3 s on an idle machine is not cut off - and a function pushed out of reach - when sixteen cores
+        serve a hundred processes"""
+        lf = getattr(self, '_load', None)
+        if lf is None:
+            try:
+                lf = max(1.0, min(8.0, os.getloadavg()[0] / float(os.cpu_count() or 1)))
+            except (OSError, AttributeError):
+                lf = 1.0
+            self._load = lf
+        return lf
+
     def solver(self, st):
         s = z3.Solver()
-        s.set('timeout', 2000)
+        s.set('timeout', int(2000 * self.load()))
         s.add(*st.facts)
         s.add(*st.pc)
         return s
@@ -547,7 +560,7 @@ class Exec:
         """solver.check() with a watchdog: z3's own timeout is not always honoured inside the sequence solver"""
         import threading
         ctx = s.ctx
-        tm = threading.Timer(budget, ctx.interrupt)
+        tm = threading.Timer(budget * self.load(), ctx.interrupt)
         tm.daemon = True
         tm.start()
         try:
@@ -757,7 +770,7 @@ class Exec:
         # every use guards each candidate c by `z == c`); this keeps the enumeration inside linear arithmetic
         if not has_seq(zz):
             s = z3.Solver()
-            s.set('timeout', 8000)
+            s.set('timeout', int(8000 * self.load()))
             for f in list(st.facts) + list(st.pc):
                 if not has_seq(f):
                     s.add(f)
@@ -765,7 +778,7 @@ class Exec:
             if r is not None:
                 return r
         s = self.solver(st)
-        s.set('timeout', 8000)
+        s.set('timeout', int(8000 * self.load()))
         return self._enumerate(s, z, limit)
 
     def _enumerate(self, s, z, limit):
